@@ -401,6 +401,7 @@ public:
     /// \returns *this
     constexpr auto erase(size_type index = 0, size_type count = npos) noexcept -> basic_inplace_string&
     {
+        TETL_PRECONDITION(index <= size());
         auto safeCount = etl::min(count, size() - index);
         erase(begin() + index, begin() + index + safeCount);
         return *this;
@@ -418,6 +419,7 @@ public:
     /// erase, or end() if no such character exists.
     constexpr auto erase(const_iterator first, const_iterator last) noexcept -> iterator
     {
+        TETL_PRECONDITION(cbegin() <= first and first <= last and last <= cend());
         auto const start    = static_cast<size_type>(etl::distance(cbegin(), first));
         auto const distance = static_cast<size_type>(etl::distance(first, last));
         TETL_PRECONDITION(size() >= distance);
